@@ -30,13 +30,15 @@ theorem read_hstep_size (n : Nat) (hlt : n < 2 ^ 31) (s : AbsSrc) (t : Bytes) (h
 /-- which (chunk, position) pairs survive the position byte -/
 def posOK (c p : Nat) : Prop := (c = 0 ∧ p ≤ 128) ∨ (1 ≤ c ∧ c ≤ 127 ∧ p = 0)
 
-theorem i8Of_positionByte (c p : Nat) (h : posOK c p) :
-    (if i8Of (positionByte c p) < 0 then HStep.madeOptional 0 (i8Of (positionByte c p)).natAbs
-     else HStep.madeOptional (i8Of (positionByte c p)).toNat 0) = HStep.madeOptional c p := by
+theorem i8Of_positionByte {α : Type} (f : HStep → α) (c p : Nat) (h : posOK c p) :
+    (if i8Of (positionByte c p) < 0 then f (HStep.madeOptional 0 (i8Of (positionByte c p)).natAbs)
+     else f (HStep.madeOptional (i8Of (positionByte c p)).toNat 0)) = f (HStep.madeOptional c p) := by
   rcases h with ⟨rfl, hp⟩ | ⟨h1, h2, rfl⟩
   · simp only [positionByte, if_true]
     by_cases hp0 : p = 0
-    · subst hp0; decide
+    · subst hp0
+      have : i8Of (byteOf ((256 - 0 % 256) % 256)) = 0 := by decide
+      simp [this]
     · have hb : (byteOf ((256 - p % 256) % 256)).toNat = 256 - p := by
         rw [byteOf_toNat]; omega
       unfold i8Of toSigned
@@ -45,7 +47,7 @@ theorem i8Of_positionByte (c p : Nat) (h : posOK c p) :
       simp only [this, if_false]
       have hneg : ((256 - p : Nat) : Int) - ((256 ^ 1 : Nat) : Int) < 0 := by omega
       simp only [hneg, if_true]
-      congr 1
+      congr 2
       omega
   · have hc : ¬ (c = 0) := by omega
     simp only [positionByte, hc, if_false]
@@ -67,7 +69,7 @@ theorem read_hstep_opt (c p : Nat) (h : posOK c p) (s : AbsSrc) (t : Bytes)
   simp only [show ¬ ((-1 : Int) = 0) by omega, if_false, if_true]
   have hv1 : (s.after (zz (-1)).length s.strs).view = positionByte c p :: t := view_after_append hv' _
   rw [readU8_bind' _ hv1]
-  rw [i8Of_positionByte c p h]
+  rw [i8Of_positionByte (fun x => DProg.ret x) c p h]
   simp [runAbs, zz_neg_one]
 
 /-- a removed-field entry reads back with its name, and the reader's string table follows the writer's -/
@@ -148,7 +150,9 @@ theorem read_header_steps (fs : List EncField) (removed : List String) :
         obtain ⟨l, st'⟩ := p
         simp [hr] at hp
         obtain ⟨rfl, rfl⟩ := hp
-        simp only [List.head?_cons, Option.join, List.tail_cons] at hh
+        have e1 : (none :: l).head?.join = (none : Option Bytes) := rfl
+        have e2 : (none :: l).tail = l := rfl
+        rw [e1, e2] at hh
         cases h1 : headerStep fs k sp none with
         | ok b1 =>
           simp only [h1, Outcome.bind_ok] at hh
@@ -205,7 +209,9 @@ theorem read_header_steps (fs : List EncField) (removed : List String) :
           obtain ⟨l, st'⟩ := p
           simp [hr] at hp
           obtain ⟨rfl, rfl⟩ := hp
-          simp only [List.head?_cons, Option.join, List.tail_cons] at hh
+          have e1 : (some b0 :: l).head?.join = some b0 := rfl
+          have e2 : (some b0 :: l).tail = l := rfl
+          rw [e1, e2] at hh
           have h1 : headerStep fs k sp (some b0) = .ok (zz (-2) ++ b0) := by simp [headerStep]
           simp only [h1, Outcome.bind_ok] at hh
           cases h2 : headerSteps fs (k + 1) rest l with
